@@ -659,6 +659,17 @@ def judge(rec, e, ws, path, held, live, baseline, variant, state):
     finally:
         twin.close()
     writes_after_close(rec, [h for h in held if h[0] != e.model.root][:6], variant)
+    # the project header is stored as well: assigning it needs the file
+    for attr, val in (("ga_version", "9.9"), ("distance_unit", "feet")):
+        rec.evals["C11.after-close-access"] += 1
+        try:
+            setattr(ws, attr, val)
+        except Geoh5FileClosedError:
+            continue
+        except Exception as exc:  # noqa: BLE001
+            rec.fail("C11.wrong-error", op=variant, cls="Workspace", attr="set:" + attr, detail=f"assigning {attr} on a closed workspace raised {type(exc).__name__}: {str(exc)[:100]}", counted=True)
+            continue
+        rec.fail("C11.stale-after-close", op=variant, cls="Workspace", attr="set:" + attr, detail=f"assigning the workspace's {attr} after the close returned without an error (the value is dropped by the next open)", counted=True)
     old_handles = [h for h in held if h[0] != e.model.root and e.model.nodes.get(h[0]) is not None and e.model.nodes[h[0]].kind in ("object", "group") and e.model.nodes[h[0]].dkind != "auto"][:1]
     del held
     # 5. re-opening restores full access to the same content
